@@ -2,10 +2,13 @@
    triggered). Two kinds of cases:
    * CGraph: a forest whose root is a Graph compiled with AllPredecessor or a Workflow, an input, the
      observation of the real run (comparison logic in Model/GraphCmp.v, shared with C01);
+   * CLoop: a forest that graph.compile rejected because validateDAG found a control cycle: the model's
+     validate_dag (Model/DagValidate.v) must reject it too; every forest of a CGraph case compiled, so the
+     model must accept it;
    * CChan: white box — a real dagChannel (built by dagChannelBuilder through the hook
      compose/verif_c02.go) driven with a sequence of operations; the full channel state observed after
      every operation is compared with the model channel of Model/Graph.v. *)
-From Eino Require Import Base.Util Model.Graph Model.Chain Model.GraphCmp.
+From Eino Require Import Base.Util Model.Graph Model.Chain Model.GraphCmp Model.DagValidate.
 Open Scope N_scope.
 
 Inductive chan_op :=
@@ -23,6 +26,7 @@ Record chan_obs := {
 
 Inductive ccase :=
 | CGraph (c : gcase)
+| CLoop (F : list gdef)          (* Compile rejected the forest with "DAG invalid, node[..] has loop" *)
 | CChan (ctrl data : list key) (ops : list (chan_op * chan_obs)).
 
 Definition tchan := chan value.
@@ -76,9 +80,44 @@ Fixpoint chan_trace_ok (c : tchan) (ops : list (chan_op * chan_obs)) : bool :=
   | (op, o) :: rest => let '(c', r) := apply_op c op in obs_matches c' r o && chan_trace_ok c' rest
   end.
 
+(* Eager (Workflow) instances whose run can FAIL: which task is collected first is decided by goroutine
+   timing, so whether the failure is seen before END is ready, and which of several failures is seen, is not
+   a function of the case. The model is run under three schedules (first / last / middle running task
+   completes next); if none of them fails the comparison is the strict one of Model/GraphCmp.v, otherwise the
+   implementation may have failed (any class) or finished with a result that some schedule produces (when
+   one does), and its log must consist of lambdas of the case. Batch-mode forests are always compared strictly. *)
+Definition sched_last : nat -> list key -> nat := fun _ ks => Nat.pred (List.length ks).
+Definition sched_mid : nat -> list key -> nat := fun _ ks => Nat.div2 (List.length ks).
+
+Definition run_with (sched : nat -> list key -> nat) (c : gcase) : outcome value :=
+  fst (run value unit tree_ops (tree_exec (gc_fails c)) sched (lower_forest (gc_forest c)) (gc_input c) tt).
+
+Definition is_fail (o : outcome value) : bool := match o with Fail _ _ => true | Done _ _ => false end.
+
+Definition gcase_ok_c02 (c : gcase) : bool :=
+  let F := lower_forest (gc_forest c) in
+  if existsb g_eager F then
+    let outs := [run_with sched_first c; run_with sched_last c; run_with sched_mid c] in
+    if existsb is_fail outs then
+      match F with
+      | [] => false
+      | g :: _ =>
+        weak_log_ok F g (o_log (gc_obs c))
+        && match o_class (gc_obs c) with
+           | OFail _ => true
+           | ODone v =>
+               negb (existsb (fun o => negb (is_fail o)) outs)
+               || existsb (fun o => match o with Done v' _ => value_eqb v v' | Fail _ _ => false end) outs
+           | _ => false
+           end
+      end
+    else gcase_ok c
+  else gcase_ok c.
+
 Definition bad (c : ccase) : bool :=
   match c with
-  | CGraph g => gcase_bad g
+  | CGraph g => negb (gcase_ok_c02 g) || negb (forest_dag_valid (lower_forest (gc_forest g)))   (* it compiled *)
+  | CLoop F => forest_dag_valid (lower_forest F)
   | CChan ctrl data ops => negb (chan_trace_ok (chan0 ctrl data) ops)
   end.
 Definition mismatches (cs : list ccase) : list nat := mismatches_from bad 0 cs.
